@@ -333,6 +333,21 @@ func Supervise(p *Prop, tier string) int {
 			fresh = append(fresh, *v)
 		}
 	}
+	// show distinct kinds of violation first
+	{
+		seenKind := map[string]bool{}
+		var first, rest []Violation
+		for _, v := range fresh {
+			k := v.Class + "/" + v.VClass
+			if !seenKind[k] {
+				seenKind[k] = true
+				first = append(first, v)
+			} else {
+				rest = append(rest, v)
+			}
+		}
+		fresh = append(first, rest...)
+	}
 	os.MkdirAll(filepath.Join(root, "replays"), 0o755)
 	for i, v := range fresh {
 		if i >= 5 {
